@@ -163,7 +163,7 @@ Alphabet(s, k) ==
         ELSE {})
 
 (* failures relevant in the model: everything except the verdicts computed from real executions *)
-MCRec == [panic |-> FALSE, det |-> "", snap |-> "", lines |-> "", view |-> "", rids |-> "", lookup |-> <<>>, e |-> [conf |-> TRUE, id |-> 0]]
+MCRec == [panic |-> FALSE, det |-> "", snap |-> "", lines |-> "", view |-> "", rids |-> "", lkload |-> "", lookup |-> <<>>, e |-> [conf |-> TRUE, id |-> 0]]
 MCFailures(S, e, r) ==
   IF r.panic THEN {<<"C06", "NoPanic">>}
   ELSE PropFailures(S, e, r.st, r.out \o r.tail, [MCRec EXCEPT !.e = [conf |-> TRUE, id |-> e.id]])
